@@ -335,4 +335,6 @@ add("C12", "categorical normalisation summed tree-wide", "nifty/re/likelihood_im
 add("C12", "sqrtm jvp divisor on one eigen index", "nifty/re/tree_math/util.py", "dM / (vsq[:, jnp.newaxis] + vsq[jnp.newaxis, :])", "dM / (2.0 * vsq[:, jnp.newaxis])", "R12.10")
 add("C12", "poisson left sqrt clamps the rate", "nifty/re/likelihood_impl.py", "        return tangents / primals**0.5", "        return tangents / jnp.maximum(primals, 1e-6)**0.5", "R12.4")
 add("C12", "one complex flag for the whole tree", "nifty/re/likelihood_impl.py", "        self.iscomplex = tree_map(\n            lambda x: jnp.issubdtype(x.dtype, jnp.complexfloating), data\n        )", "        self.iscomplex = bool(jnp.issubdtype(result_type(data), jnp.complexfloating))", "R12.9")
+add("C13", "block-diagonal dtype table over the given operators only", "nifty/cl/operators/block_diagonal_operator.py", "        self._dtype = {kk: getattr(operators.get(kk), \"sampling_dtype\", None)\n                       for kk in domain.keys()}", "        self._dtype = {kk: getattr(oo, \"sampling_dtype\", None)\n                       for kk, oo in operators.items()}", "R13.9")
+add("C13", "identity block refusal tests presence only", "nifty/cl/operators/block_diagonal_operator.py", "if self._dtype is None or self._dtype.get(key) is None:", "if self._dtype is None or key not in self._dtype:", "R13.9")
 VARIANTS = V
